@@ -217,6 +217,66 @@ fn one(runner: &Runner, seed: u64, i: usize, keys: usize) -> Res {
             }
         }
     }
+    // relation 3b': a path that does not exist among the inputs, at two positions: the
+    // findings of the files that do exist must not depend on where the bad path stands
+    {
+        let n_named = b.project.named.len();
+        let head = b.base.argv.len() - n_named;
+        let mut outs = Vec::new();
+        for pos in [0usize, n_named] {
+            let mut c = b.base.clone();
+            c.argv.insert(head + pos, "ghost.circom".into());
+            if let Some(o) = run(&c, &mut res) {
+                outs.push((c, multiset(&parse_stdout(&o.stdout), &b.world)));
+            }
+        }
+        if outs.len() == 2 {
+            *res.relations.entry("missing-file-position").or_default() += 1;
+            if outs[0].1 != outs[1].1 {
+                let (ca, ma) = outs[0].clone();
+                let (cb, mb) = outs[1].clone();
+                report("missing-file-position", "a non-existent input path first vs last".into(), &ca, &cb, &ma, &mb, &mut res);
+            }
+        }
+    }
+    // relation 5: a stall of the clock while one definition is lifted may cost that
+    // definition (and those that instantiate it) findings, never the others
+    {
+        let reads = o0.clock_reads();
+        if reads >= 4 && b.project.named_defs().len() >= 2 {
+            let mut c = b.base.clone();
+            c.plan.stalls.push((1 + r_keys.below(reads as u64 - 1) as i64, 11_000_000_000));
+            if let Some(o) = run(&c, &mut res) {
+                *res.relations.entry("stall-isolation").or_default() += 1;
+                let per_def = |o: &Outcome| -> BTreeMap<String, Vec<NF>> {
+                    let mut m: BTreeMap<String, Vec<NF>> = BTreeMap::new();
+                    for mut n in with_positions(&parse_stdout(&o.stdout), &b.world) {
+                        let key = n.first.as_ref().and_then(|(p, l)| b.layout.def_at(p, *l)).map(|d| d.1.clone()).unwrap_or_else(|| "<none>".into());
+                        n.first = None;
+                        m.entry(key).or_default().push(n);
+                    }
+                    for v in m.values_mut() {
+                        v.sort();
+                    }
+                    m
+                };
+                let (ma, mb) = (per_def(&o0), per_def(&o));
+                let names: BTreeSet<String> = ma.keys().chain(mb.keys()).cloned().collect();
+                let changed: Vec<String> = names.into_iter().filter(|k| ma.get(k) != mb.get(k)).collect();
+                // all changed definitions must be one definition d or instantiate / call d
+                let refs_of = |name: &str| -> Vec<String> {
+                    b.project.files.iter().flat_map(|f| f.defs.iter()).find(|d| d.name == name).map(|d| d.refs.clone()).unwrap_or_default()
+                };
+                let all_defs: Vec<String> = b.project.files.iter().flat_map(|f| f.defs.iter().map(|d| d.name.clone())).collect();
+                let explained = changed.is_empty()
+                    || all_defs.iter().any(|d| changed.iter().all(|c| c == d || refs_of(c).contains(d)));
+                if !explained {
+                    let (x, y) = (multiset(&parse_stdout(&o0.stdout), &b.world), multiset(&parse_stdout(&o.stdout), &b.world));
+                    report("stall-isolation", format!("one clock stall changed the findings of unrelated definitions {changed:?}"), &b.base, &c, &x, &y, &mut res);
+                }
+            }
+        }
+    }
     // relation 3c: the directory named instead of all its files, two listing orders
     if b.project.named.len() == b.project.files.len() {
         for _ in 0..2 {
